@@ -89,7 +89,7 @@ def variant_of_source(repo):
         (r"if \(r\) \{ SharedLockHelper\(\); \} return r; \}$", False)])
     sl = _body(rd("src/fault/fiber/scheduler.cpp"), r"void Scheduler::SleepPreemptive\(std::uint64_t ns\)\s*\{")
     v["v_sl_guard"] = _choose("Scheduler::SleepPreemptive", sl, [
-        (r"if \(_time <= ns\) \{ auto it = _sleep_list\.find\(ns\); if \(it != _sleep_list\.end\(\) && it->second\.Empty\(\)\) \{ _sleep_list\.erase\((it|ns)\); \} \} \}$", True),
+        (r"Sleep\(ns\); if \(auto it = _sleep_list\.find\(ns\); it != _sleep_list\.end\(\) && it->second\.Empty\(\)\) \{ _sleep_list\.erase\(it\); \} \}$", True),
         (r"if \(_time <= ns\) \{ auto it = _sleep_list\.find\(ns\); YACLIB_DEBUG\(it == _sleep_list\.end\(\), \"[^\"]*\"\); if \(it->second\.Empty\(\)\) \{ _sleep_list\.erase\(ns\); \} \} \}$", False)])
     # the functions that carry no flag must be exactly what FiberSync.v transcribes
     mx = rd("src/fault/fiber/mutex.cpp")
@@ -136,7 +136,8 @@ ALPH = {
     "shared_mutex": "LTlt",
     "shared_timed_mutex": "LTltFGfgZzUu",
 }
-SMALL = {"timed_mutex": "LTFG", "recursive_timed_mutex": "LTG", "shared_timed_mutex": "LTltGgF"}
+QUICK2 = {"timed_mutex": "LTFG", "recursive_timed_mutex": "LTG", "shared_timed_mutex": "LlG"}
+SMALL = {"timed_mutex": "LTFG", "recursive_timed_mutex": "LTG", "shared_timed_mutex": "LTltGg"}
 MACHINE = {"mutex": "Mx", "timed_mutex": "Mx", "cv": "Mx", "recursive_mutex": "Rc", "recursive_timed_mutex": "Rc",
            "shared_mutex": "Sh", "shared_timed_mutex": "Sh"}
 
@@ -185,28 +186,57 @@ def cv_scenarios(k, maxlen, alph="WwxuNAnaS"):
     return out
 
 
+CV_PICKED = ["cv/W|NS", "cv/Wn|N", "cv/x|nN", "cv/w|Sn", "cv/u|nA", "cv/WA|W", "cv/W|W|A", "cv/W|x|A", "cv/w|u|NN",
+             "cv/x|x|NN", "cv/W|n|N"]
+
+
+def lock_pairs(cls, first, second):
+    seen, out = set(), []
+    for a in first:
+        for b in second:
+            key = tuple(sorted((a, b)))
+            if key not in seen:
+                seen.add(key)
+                out.append("%s/%s|%s" % (cls, a, b))
+    return out
+
+
 def scenario_sets(tier, seed):
     """-> list of (label, mode, extra args, [names])"""
     rnd = random.Random(seed)
     sets = []
     ex = []
     for cls, alph in ALPH.items():
-        ex += tuples(cls, alph, (2, 1))
-    ex += cv_scenarios(2, 1) + cv_scenarios(2, 2, "WwuNAn")[:400]
+        nest = cls.startswith("recursive")
+        # fiber 1: every operation as a single block + two-block (and, for recursive locks, nested) programs over the
+        # main operations; fiber 2: every operation as a single block
+        first = progs(alph, 1, False) + [p for p in progs(QUICK2.get(cls, alph), 2, nest) if len(p) > 1]
+        ex += lock_pairs(cls, first, progs(alph, 1, False))
+    ex += cv_scenarios(2, 1)
+    ex += ["cv/%s|%s" % (a, b) for a in progs("WuNAn", 2, False) if len(a) == 2 for b in "WwuxNAn"
+           if cv_ok((a, b)) and any(c in a + b for c in "Wwxu") and any(c in a + b for c in "NAn")]
+    ex += ["cv/W|n|N"]
     ex += ["tls/0pYp|1pYp4q", "tls/pY0Yp|qY5Yq|p1p", "tls/04pq|15pq|pq"]
     ex += ["thread/J(S)J()YD(Y)S", "thread/D(S)D(Y)Y", "thread/J(J(Y)D(S))Y", "thread/D(J(S))J(Y)S", "thread/D(Y)D(Y)J(Y)"]
-    ex += ["mutex/LS|L", "timed_mutex/L(S)|F|G", "cv/WS|SN", "cv/u|u|A", "cv/x|x|NA"]
-    sets.append(("exhaustive 2 fibers x (<=2,<=1) blocks, all operations", "dfs", [], ex))
+    ex += ["mutex/LS|L", "timed_mutex/L(S)|F|G", "cv/WS|SN"]
+    sets.append(("exhaustive: 2 fibers x (<=2,<=1) blocks of every lock class, 2 fibers x <=2 condvar operations, thread and "
+                 "thread-local programs", "dfs", ["--max", str(DFS_CAP)], ex))
     if tier == "thorough":
+        have = set(ex)
         ex2 = []
         for cls, alph in ALPH.items():
-            ex2 += [n for n in tuples(cls, SMALL.get(cls, alph), (2, 2)) if n not in set(ex)]
-            ex2 += tuples(cls, SMALL.get(cls, alph)[:4], (1, 1, 1))
-        ex2 += cv_scenarios(3, 1, "WxuNA")
-        sets.append(("exhaustive 2 fibers x (<=2,<=2) and 3 fibers x 1 block, main operations", "dfs", [], ex2))
+            small = SMALL.get(cls, alph)
+            ex2 += [n for n in tuples(cls, small, (2, 2)) if n not in have]
+            ex2 += tuples(cls, small[:4], (1, 1, 1))
+            ex2 += [n for n in lock_pairs(cls, progs(alph, 2, cls.startswith("recursive")), progs(alph, 1, False)) if n not in have]
+        ex2 += [n for n in cv_scenarios(2, 2, "WuxNAn") if n not in have]
+        ex2 += ["cv/W|W|A", "cv/u|u|A", "cv/W|u|A"]
+        ex2 = sorted(set(ex2))
+        sets.append(("exhaustive: 2 fibers x (<=2,<=2) blocks and 3 fibers x 1 block over the main operations, more condvar "
+                     "programs", "dfs", ["--max", str(DFS_CAP)], ex2))
     # seeded random walks over larger configurations
     big = []
-    n_big = 60 if tier == "quick" else 400
+    n_big = 40 if tier == "quick" else 300
     for i in range(n_big):
         cls = rnd.choice(list(ALPH) + ["cv"])
         k = rnd.choice([3, 4])
@@ -221,7 +251,7 @@ def scenario_sets(tier, seed):
             big.append("%s/%s" % (cls, "|".join(rnd.choice(pl) for _ in range(k))))
     big = sorted(set(big))
     sets.append(("seeded random schedules, 3-4 fibers x <=2 blocks", "random",
-                 ["--max", "150" if tier == "quick" else "600", "--seed", str(seed)], big))
+                 ["--max", "60" if tier == "quick" else "300", "--seed", str(seed)], big))
     return sets
 
 
@@ -483,7 +513,8 @@ HEADER = ("From Coq Require Import NArith List. Import ListNotations.\n"
           "Set Printing Depth 100000000.\nSet Printing Width 1000000.\n")
 RUNNER = {"Mx": "mx_trie source_variant", "Rc": "rc_trie source_variant", "Sh": "sh_trie source_variant",
           "Jn": "jn_trie", "Tl": "tl_trie"}
-CHUNK = 3000
+CHUNK = 2500
+DFS_CAP = 40000   # executions per scenario; the exhaustive sets are chosen to stay far below
 
 
 def check_lock(r, t, mt):
@@ -537,8 +568,17 @@ def work(args):
     res["failing_executions"] = sum(t["count"] for t in traces if t["fail"])
     if not do_corr:
         return res
-    tries = {}
     tbad = set()
+    jobs = []          # (machine, Trie) in the order of the Eval commands
+    cur = {}
+
+    def put(mach, events, payload):
+        tr = cur.get(mach)
+        if tr is None or tr.count >= CHUNK:
+            tr = cur[mach] = Trie()
+            jobs.append((mach, tr))
+        tr.add(events, payload)
+
     for ti, t in enumerate(traces):
         try:
             mt = map_trace(t["scenario"], t["trace"])
@@ -548,17 +588,15 @@ def work(args):
             continue
         cls = t["scenario"].split("/")[0]
         if cls in MACHINE and mt["cevents"]:
-            tries.setdefault(mt["machine"], Trie()).add(mt["cevents"], (ti, mt, check_lock))
+            put(mt["machine"], mt["cevents"], (ti, mt, check_lock))
         if mt["cjn"]:
-            tries.setdefault("Jn", Trie()).add(mt["cjn"], (ti, mt, check_join))
+            put("Jn", mt["cjn"], (ti, mt, check_join))
         if mt["ctl"]:
-            tries.setdefault("Tl", Trie()).add(mt["ctl"], (ti, mt, check_tls))
+            put("Tl", mt["ctl"], (ti, mt, check_tls))
     body = [HEADER]
-    plan = []
-    for mach, tr in tries.items():
-        text = tr.emit()
-        body.append("Eval vm_compute in (%s (%s))." % (RUNNER[mach], text))
-        plan.append((mach, tr))
+    for mach, tr in jobs:
+        body.append("Eval vm_compute in (%s (%s))." % (RUNNER[mach], tr.emit()))
+    plan = jobs
     ok, cout = vlib.coqc_eval("\n".join(body) + "\n", "c18_%d_%s" % (os.getpid(), tag), timeout=1700)
     blocks = re.findall(r"=\s*(\[.*?\])\s*:\s*list \(list nat\)", cout.replace("\n", " "))
     if not ok or len(blocks) != len(plan):
